@@ -439,3 +439,14 @@ func (p *Program) aliasRenamed() {
 		}
 	}
 }
+
+// FuncOfLitVar returns the full name of the top-level function in whose body
+// the local variable v is declared ("" if none).
+func (p *Program) FuncOfLitVar(v types.Object) string {
+	for _, f := range p.allFunc {
+		if f.Decl != nil && f.Obj != nil && f.Body != nil && f.Pkg.Types == v.Pkg() && f.Body.Pos() <= v.Pos() && v.Pos() <= f.Body.End() {
+			return f.Obj.FullName()
+		}
+	}
+	return ""
+}
